@@ -123,12 +123,12 @@ func values(t syntax.TypeId) []string {
 	}
 }
 
-// convertible drops the two scalar values that are known findings on their
-// own (20-digit float, -0.0), so that it does not hide its neighbours inside a collection.
+// convertible drops the scalar value that is a known finding on its own
+// (20-digit float), so that it does not hide its neighbours inside a collection.
 func convertible(vals []string) []string {
 	var out []string
 	for _, v := range vals {
-		if !strings.Contains(v, "123456789012345680000") && v != "-0.0" {
+		if !strings.Contains(v, "123456789012345680000") {
 			out = append(out, v)
 		}
 	}
